@@ -12,6 +12,8 @@ From RX.Model Require Import Base CharClass Stream Tokenizer Doc Builder Parse A
 From RX.Spec Require Import Tree Deque.
 From RX.Proofs Require Import NavEnc NavLinks NavIter NavAxes NavElem NavParse.
 From RX.Proofs Require ApiViewAcc ApiView ApiViewProofs.
+From RX.Spec Require CstFull CstFullS6 CstFullS7.
+From RX.Proofs Require CstNsView ApiUserCore ApiUserAcc ApiUserS7.
 Open Scope N_scope.
 
 (* ---- Proofs/ApiViewProofs.v ---- *)
@@ -32,6 +34,87 @@ Proof. exact api_view_defined. Qed.
 Print Assumptions C11_api_view_defined.
 
 End G0.
+
+(* ---- Proofs/ApiUserS7.v ---- *)
+Module G1.
+Import RX.Spec.CstFull. Import RX.Spec.CstFullS6. Import RX.Spec.CstFullS7. Import RX.Proofs.CstNsView. Import RX.Proofs.ApiViewAcc. Import RX.Proofs.ApiView. Import RX.Proofs.ApiUserCore. Import RX.Proofs.ApiUserAcc. Import RX.Proofs.ApiUserS7.
+Theorem C11_user_nodes :
+  forall (d : S7.doc) (opt : options) (doc : document),
+       s7_ok d opt ->
+       parse (S7.render d) opt = Ok doc ->
+       descendants doc 0 = Ok {| it_lo := 0; it_hi := 1 + N.of_nat (Datatypes.length (S7.sem d)) |} /\
+       sit_list {| it_lo := 0; it_hi := 1 + N.of_nat (Datatypes.length (S7.sem d)) |} =
+       0 :: map id_of (seq 0 (Datatypes.length (S7.sem d))) /\
+       node_type doc 0 = Ok NtRoot /\
+       (forall (k : nat) (v : CstNs.vnode),
+        nth_error (S7.sem d) k = Some v -> node_type doc (id_of k) = Ok (ntype_of v)).
+Proof. exact user_nodes. Qed.
+Print Assumptions C11_user_nodes.
+
+Theorem C11_user_root_element :
+  forall (d : S7.doc) (opt : options) (doc : document),
+       s7_ok d opt ->
+       parse (S7.render d) opt = Ok doc ->
+       forall (name : qname) (ens : list uentry) (ws : Scope.bytes)
+         (body : option (list uitem * Scope.bytes)),
+       d_root (S6.x_main d) = IElem name ens ws body ->
+       let m := (Datatypes.length (S6.prolog_items d) + Datatypes.length (d_before (S6.x_main d)))%nat in
+       root_element doc = Ok (id_of m) /\
+       (forall (k : nat) (v : CstNs.vnode),
+        (k < m)%nat -> nth_error (S7.sem d) k = Some v -> is_velem v = false) /\
+       (exists
+          (attrs : list (option Scope.bytes * Scope.bytes * Scope.bytes)) (nss : list Scope.binding) 
+        (n : nat),
+          nth_error (S7.sem d) m =
+          Some
+            (CstNs.VElem (CstNs.ns_of (Scope.resolve_elem nss (utf8s (q_prefix name))))
+               (utf8s (q_local name)) attrs nss n)).
+Proof. exact user_root_element. Qed.
+Print Assumptions C11_user_root_element.
+
+Theorem C11_user_children :
+  forall (d : S7.doc) (opt : options) (doc : document),
+       s7_ok d opt ->
+       parse (S7.render d) opt = Ok doc ->
+       forall (k : nat) (ns : option Text.bytes) (local : Text.bytes)
+         (attrs : list (option Text.bytes * Text.bytes * Text.bytes)) (nss : list Scope.binding) 
+         (n : nat),
+       nth_error (S7.sem d) k = Some (CstNs.VElem ns local attrs nss n) ->
+       exists ch : list N, children_list doc (id_of k) = Ok ch /\ Datatypes.length ch = n.
+Proof. exact user_children. Qed.
+Print Assumptions C11_user_children.
+
+Theorem C11_user_text :
+  forall (d : S7.doc) (opt : options) (doc : document),
+       s7_ok d opt ->
+       parse (S7.render d) opt = Ok doc ->
+       forall (k : nat) (bs : Scope.bytes),
+       nth_error (S7.sem d) k = Some (CstNs.VText bs) ->
+       exists st : storage, text_storage doc (id_of k) = Ok (Some st) /\ storage_bytes (S7.render d) st = bs.
+Proof. exact user_text. Qed.
+Print Assumptions C11_user_text.
+
+Theorem C11_user_comment :
+  forall (d : S7.doc) (opt : options) (doc : document),
+       s7_ok d opt ->
+       parse (S7.render d) opt = Ok doc ->
+       forall (k : nat) (bs : Scope.bytes),
+       nth_error (S7.sem d) k = Some (CstNs.VComment bs) ->
+       exists st : storage, text_storage doc (id_of k) = Ok (Some st) /\ storage_bytes (S7.render d) st = bs.
+Proof. exact user_comment. Qed.
+Print Assumptions C11_user_comment.
+
+Theorem C11_user_pi :
+  forall (d : S7.doc) (opt : options) (doc : document),
+       s7_ok d opt ->
+       parse (S7.render d) opt = Ok doc ->
+       forall (k : nat) (target : Scope.bytes) (value : option Scope.bytes),
+       nth_error (S7.sem d) k = Some (CstNs.VPI target value) ->
+       pi (S7.render d) doc (id_of k) = Ok (Some (target, value)).
+Proof. exact user_pi. Qed.
+Print Assumptions C11_user_pi.
+
+End G1.
 
 (* ---- Proofs/NavLinks.v ---- *)
 Theorem C11_table_ids :
